@@ -6,7 +6,6 @@
 EXTENDS Priority
 CONSTANTS MaxTime, MaxInject, Malformed, Lossy, WithDecide
 Scripted == Peers \ Real
-LP == [i \in Real |-> <<"p1">>]
 OwnList(i) == IF i % 2 = 1 THEN <<"v2", "v1">> ELSE <<"v1", "v2">>
 OwnTopics(i) == <<[topic |-> "version", prios |-> OwnList(i)]>>
 M(p, s, l) == [peer |-> p, slot |-> s, topics |-> <<[topic |-> "version", prios |-> l]>>]
@@ -25,7 +24,7 @@ MCNext ==
   \/ \E b \in Scripted, j \in Real, k \in 1..MaxInject : \E mv \in Repertoire(b) : RecvReq(<<0, k, 0>>, b, j, mv[1], mv[2])
   \/ \E b \in Scripted, i \in Real : \E mv \in Repertoire(b) : RecvResp(i, b, 1, mv[1], mv[2])
   \/ (now < MaxTime /\ Advance(1))
-  \/ (WithDecide /\ \E i, by \in Real : Decide(i, 1, by))
+  \/ (WithDecide /\ \E i, by \in Real : (\A k \in DOMAIN outp : outp[k].i # i) /\ Decide(i, 1, by))
 MCSpec == Init /\ [][MCNext]_vars
 \* when nothing is lost and nobody misbehaves, everybody proposes the same topics ("consensus is reached if quorum
 \* peers propose the same value"): with all messages in, the proposals agree
